@@ -18,6 +18,8 @@ Oracle: the reference model builds every data message with tables = bundled (ver
 so far (later wins) -- so the expected values are known by construction; a data message whose descriptors are
 not (yet) defined must be refused (UnknownDescriptor) and skipped.
 """
+import os
+from mc import REPO
 import contextlib
 import io
 import itertools
@@ -227,7 +229,7 @@ def run_prepbufr(_):
     the two definition messages at its start"""
     from mc.gen.corpus import scan as cscan
     p = Partial()
-    s = open('/repo/tests/data/prepbufr.bufr', 'rb').read()
+    s = open(os.path.join(REPO, 'tests/data/prepbufr.bufr'), 'rb').read()
     msgs = cscan(s)
     B, D = tables.load(13)
     B, D = dict(B), dict(D)
